@@ -140,7 +140,7 @@ def agent_cell(cell):
             res["violations"].append({"key": "choices-not-deterministic", "what": f"cfg={cfg} events {pattern}: choices {c1} vs {c2} for twin agents",
                                       "case": {"mode": "twin", "cfg": cfg, "hist": [list(e) for e in pattern]}})
     res["samples"] = [{"cfg": cfg, "events": [list(e) for e in events[:3]], "depth": depth}]
-    res["outcomes"] = sorted(res["outcomes"])
+    res["outcomes"] = sorted(res["outcomes"], key=repr)
     return res
 
 
@@ -154,6 +154,8 @@ def _env(n=2):
 def _ref_rewards(boot, seq):
     ref, out = boot, []
     for new in seq:
+        if isinstance(new, str):  # a session boundary (env.reset()): the reference best is not forgotten
+            continue
         if new < ref:
             out.append((ref - new) / ref)
             ref = new
@@ -167,6 +169,12 @@ def _env_seq(boot, seq, via):
     env._curr_best_loss = boot  # noqa: SLF001  (what RLScheduler.update does at bootstrap)
     got = []
     for i, new in enumerate(seq):
+        if new == "reset":
+            env.reset()
+            continue
+        if new == "reset-seed":
+            env.reset(seed=5)
+            continue
         if via == "get_reward":
             got.append(env.get_reward(np.array([0.0]), new))
         else:
@@ -198,7 +206,9 @@ def env_cell(cell):
     vals, L = cell["values"], cell["length"]
     for boot in cell["boots"]:
         for ln in range(1, L + 1):
-            for seq in itertools.product(vals, repeat=ln):
+            for seq in itertools.product(vals + (["reset", "reset-seed"] if ln <= cell.get("reset_len", 4) else []), repeat=ln):
+                if isinstance(seq[-1], str):
+                    continue
                 for via in ("get_reward", "step"):
                     res["evaluations"] += 1
                     res["traces"] += 1
@@ -206,7 +216,7 @@ def env_cell(cell):
                     ref = _ref_rewards(boot, seq)
                     if sum(1 for r in ref if r > 0) >= 1 and any(r == 0 for r in ref):
                         res["nontrivial"] += 1
-                    res["outcomes"].add(tuple(r > 0 for r in ref))
+                    res["outcomes"].add(tuple(r > 0 for r in ref) if "reset" not in seq and "reset-seed" not in seq else ("with-reset", tuple(r > 0 for r in ref)))
                     for key, what in _judge_env(boot, seq, via):
                         if len(res["violations"]) < 4:
                             res["violations"].append({"key": key, "what": what, "case": {"mode": "env", "boot": boot, "seq": list(seq), "via": via}})
@@ -220,7 +230,7 @@ def env_cell(cell):
         res["violations"].append({"key": "end-marker", "what": f"step() on None marker returned reward={reward} truncated={trunc} best={env._curr_best_loss}", "case": {"mode": "env-marker"}})  # noqa: SLF001
     res["states"] = res["evaluations"]
     res["samples"] = [{"boot": cell["boots"][0], "losses": vals[:3], "reference_rewards": _ref_rewards(cell["boots"][0], vals[:3])}]
-    res["outcomes"] = sorted(res["outcomes"])
+    res["outcomes"] = sorted(res["outcomes"], key=repr)
     return res
 
 
@@ -251,7 +261,7 @@ def main(ctx):
     for n in (1, 2, 3):
         for alpha in (-1, 0.1, 0.5, 1.0):
             for eps in (0.0, 0.3, 1.0):
-                for init in (0.0, 1.0):
+                for init in (0.0, 1.0, 0, 1):  # python ints are legitimate initial values too
                     for seed in (S, S + 1):
                         if ctx.quick:
                             depth = {1: 5, 2: 4, 3: 3}[n]
